@@ -32,7 +32,7 @@ ASSUMPTIONS = [
     "header per frame",
     "VolumeMatrix: raw matrix read as A[i, d*j+a] = (dV_i/dr_ja)/V_i (central differences, step deltar), self block from translation "
     "invariance; compared with a scipy finite-difference oracle at 5e-5 (single-precision noise / (2 deltar)); the transformed matrix "
-    "A^T (A A^T)^-1 A is only compared with itself (requested frame vs one-frame snapshots; file vs return): A A^T is singular in exact "
+    "A^T (A A^T)^+ A is only compared with itself (requested frame vs one-frame snapshots; file vs return): A A^T is singular in exact "
     "arithmetic for a periodic box (sum_i V_i A_i = 0; for N = 2 A vanishes identically by inversion symmetry), so its value is "
     "noise-dominated: only 'no exception', 'requested frame' (bit-for-bit) and 'file equals return' are demanded of it; zero row sums "
     "are demanded of the raw matrix only",
